@@ -705,8 +705,7 @@ fn exercise_convert(map: &Map, endian: RunTimeEndian, address_size: u8, b: &mut 
     let ca = |a: u64| Some(w::Address::Constant(a));
     match w::Dwarf::from(&dwarf, &ca) {
         Ok(mut d) => {
-            // the writer recurses once per nesting level of entries (recorded finding, see known_findings.json):
-            // such results are not written unless VERIF_C01_NO_SKIP is set
+            // the writer used to recurse once per nesting level of entries (see known_findings.json, fixed)
             let mut max_depth = 0isize;
             let mut it = dwarf.units();
             while let Ok(Some(h)) = it.next() {
@@ -722,7 +721,8 @@ fn exercise_convert(map: &Map, endian: RunTimeEndian, address_size: u8, b: &mut 
                     }
                 }
             }
-            if max_depth > 1000 && std::env::var_os("VERIF_C01_NO_SKIP").is_none() {
+            // (fixed in gimli by the iterative writer; VERIF_C01_SKIP_DEEP_WRITE=1 restores the old exclusion)
+            if max_depth > 1000 && std::env::var_os("VERIF_C01_SKIP_DEEP_WRITE").is_some() {
                 b.skipped_deep_write = true;
             } else {
                 let mut sections = w::Sections::new(w::EndianVec::new(endian));
